@@ -443,6 +443,30 @@ def r163(ctx):
     ok = muts is not None and "commit_log" in render(muts) and "collect" in render(muts)
     ctx.ob("R16.3", ok, "cloud/prepare/reports-log", f"prepare builds mutations from `{render(muts)[:120] if muts else None}`", where=f"{b.file}:{b.line}",
            sample="mutations <- commit_log.iter().map(..).collect()")
+    # the "effectively empty" shortcut (report nothing, drop the log) is taken only when the log holds exactly one record -
+    # the last-writer stamp; with any other record in the log, prepare must report it (commit applies the whole log)
+    from engine import atoms as _atoms
+    empties = [(bi, c) for bi, c in b.calls() if c.callee and c.callee.name.endswith("Mutations::new")]
+    if empties:
+        one_edges = set()
+        for sb in sorted(fv.live_blocks()):
+            if b.term(sb).kind != "switch":
+                continue
+            for tg, at in _atoms.edge_atoms(fv, sb):
+                if at is None:
+                    continue
+                for nm in ("mutations", "commit_log"):
+                    try:
+                        want = _atoms.parse_atom(f"len({nm}) == 1")
+                        if _atoms.entails(at, want):
+                            one_edges.add((sb, tg))
+                    except Exception:
+                        pass
+        for bi, c in empties:
+            ctx.ob("R16.3", bool(one_edges) and fv.must_pass(bi, one_edges), "cloud/prepare/empty-only-for-single-record",
+                   "prepare can report an empty mutation set although the commit log holds more than the last-writer record "
+                   "(the shortcut is not guarded by `exactly one entry`): commit then changes the local store by mutations that were "
+                   "never reported", where=f"{b.file}:{c.line}", sample="Mutations::new() only under len(log) == 1")
     fr = [c for bi, c in b.calls() if c.callee and c.callee.name.endswith("Mutations::from_vec")]
     ctx.ob("R16.3", len(fr) == 1 and render(strip_ref(fv.expr(fr[0].args[0]))) == "mutations", "cloud/prepare/returns-mutations",
            "prepare does not return the collected mutations", where=f"{b.file}:{b.line}")
